@@ -262,6 +262,10 @@ def mk(clsname, *fields):
     return cls(*fields)
 
 
+def nfields(obj):
+    return len(obj) if isinstance(obj, tuple) else len(getattr(obj, '__slots__', ()))
+
+
 def fld(obj, name):
     return getattr(obj, name)
 
